@@ -34,6 +34,9 @@ pub struct SchedCase {
     /// code) just blocks there and nothing new happens; code that does not wait (try_lock, or no
     /// lock at all) shows what it does when it loses that race.
     pub probe_held: bool,
+    /// the consumer samples size_hint() before every poll (trace event [6 lower upper]); a sampling that
+    /// takes the lock more than once lets the producer run in between
+    pub sample_hints: bool,
     pub class: String,
 }
 
@@ -269,6 +272,7 @@ pub fn run_one(case: &SchedCase, prefix: &[u8]) -> RunResult {
     let sc = sched.clone();
     let fresh = case.fresh_waker;
     let drop_after = case.drop_after;
+    let sample_hints = case.sample_hints;
     let ct = std::thread::spawn(move || {
         ROLE.with(|r| r.set(2));
         let mut body = Some(Box::pin(body));
@@ -301,6 +305,13 @@ pub fn run_one(case: &SchedCase, prefix: &[u8]) -> RunResult {
                 g.woken.retain(|w| *w != wid);
             }
             let mut cx = Context::from_waker(&waker);
+            if sample_hints {
+                C_LOCKS.with(|l| l.set(0));
+                C_WID.with(|w| w.set(wid));
+                let h = body.as_ref().unwrap().size_hint();
+                let ev = Val::L(vec![Val::N(6), Val::N(h.lower()), Val::opt(h.upper().map(Val::N))]);
+                sc.st.lock().unwrap().trace.push(ev);
+            }
             C_LOCKS.with(|l| l.set(0));
             C_WID.with(|w| w.set(wid));
             let r = body.as_mut().unwrap().as_mut().poll_frame(&mut cx);
@@ -454,6 +465,7 @@ pub fn case_line(id: &str, case: &SchedCase, r: &RunResult) -> String {
         Val::N(case.spurious as u64),
         Val::opt(case.drop_after.map(|d| Val::N(d as u64))),
         Val::boolean(case.probe_held),
+        Val::boolean(case.sample_hints),
     ]);
     let obs = Val::L(vec![Val::boolean(r.stuck), Val::boolean(r.timeout), Val::boolean(r.wake_while_locked)]);
     format!("sched {} {}", id, Val::L(vec![input, obs]).to_string())
@@ -505,6 +517,7 @@ pub fn case_of_input(v: &Val) -> Option<(SchedCase, Vec<u8>)> {
             spurious: l[5].as_n()? as u32,
             drop_after: l[6].as_opt()?.and_then(|d| d.as_n()).map(|d| d as u32),
             probe_held: l.get(7).and_then(|v| v.as_n()).map(|n| n != 0).unwrap_or(false),
+            sample_hints: l.get(8).and_then(|v| v.as_n()).map(|n| n != 0).unwrap_or(false),
             class: "replay".into(),
         },
         choices,
